@@ -388,6 +388,43 @@ fn c08_tiebreak_opposite_a() {
     core::mem::forget(msg_from_b);
 }
 
+// @harness c15_tiebreak_fewer_incoming
+// @property C15 C08
+// @maps vmap
+// @tier quick
+// @functions Probe::tiebreaking, DnsRecordExt::compare
+// @bound we probe with two A records (addresses 1 and 2); the other prober's query carries 0 or 1 A record for the name (symbolic count; its address equal to our first one or greater than both); any clock
+// @oracle no panic whatever the peer sends (a probe query with fewer records than ours must not take the daemon down); with an equal first record the side with more records does not yield
+// @stubs clock(overlay)
+// @covers none_incoming, one_incoming
+#[kani::proof]
+#[kani::unwind(5)]
+fn c15_tiebreak_fewer_incoming() {
+    let now = any_time();
+    let sa: u64 = kani::any();
+    kani::assume(sa < now);
+    set_clock(now);
+    let mut pa = probe_with2(sa, addr_rec(1, CLASS_IN), addr_rec(2, CLASS_IN));
+    // the peer's address: equal to our first record, or greater than both of ours (concrete: the comparison of two
+    // symbolic addresses is what makes this harness heavy, and it is decided by c08_tiebreak_opposite_a / c08_compare_addr)
+    let ib: u32 = if kani::any() { 1 } else { 3 };
+    let n: u8 = kani::any();
+    kani::assume(n <= 1);
+    let mut msg = mk_incoming(Vec::with_capacity(1), 0, 0);
+    if n == 1 {
+        msg.authorities_mut().push(addr_rec(ib, CLASS_IN));
+    }
+    pa.tiebreaking(&msg, "a.");
+    let post = pa.start_time != sa;
+    if n == 1 && ib == 1 {
+        assert!(!post, "equal prefix and more records on our side: we must not yield");
+    }
+    kani::cover!(n == 0, "none_incoming");
+    kani::cover!(n == 1, "one_incoming");
+    core::mem::forget(pa);
+    core::mem::forget(msg);
+}
+
 // @harness c08_tiebreak_not_started
 // @property C08
 // @maps vmap
